@@ -116,3 +116,46 @@ def all_done(sc, sysm):
 
 def someone_open(sc, sysm):
   return lambda B, st: B.or_(*[B.not_(ended(sysm, B, st, p.tid)) for p in sysm.programs])
+
+
+def tsa_serial_values(kinds):
+  """final values of every serial order of the statements (initial value 0)"""
+  import itertools
+  from vf.e2.scenarios import TSA_CONST, TSA_ASSIGN
+  out = set()
+  for order in itertools.permutations(range(len(kinds))):
+    v = 0
+    for t in order:
+      if kinds[t] == "assign":
+        v = TSA_ASSIGN[t]
+      elif kinds[t] == "aug":
+        v += TSA_CONST[t]
+    out.add(v)
+  return sorted(out)
+
+
+def tsa_final(B, st):
+  """value of the attribute: vals['key'] if stored, else 0"""
+  return B.ite(B.eq(st["vals.size"], B.const(0)), B.const(0), st["vals.v0"])
+
+
+def tsa_bad_value(sc, sysm):
+  ok_values = tsa_serial_values(sc.info["kinds"])
+  done = all_done(sc, sysm)
+
+  def f(B, st):
+    v = tsa_final(B, st)
+    return B.and_(done(B, st), B.not_(B.or_(*[B.eq(v, B.const(x)) for x in ok_values])))
+  return f
+
+
+def tsa_lock_left(sc, sysm):
+  """every statement finished, yet the lock is still held by someone"""
+  done = all_done(sc, sysm)
+  locks = sc.info["lock_names"]
+  return lambda B, st: B.and_(done(B, st), B.or_(*[B.not_(B.eq(st[l + ".owner"], B.const(0))) for l in locks]))
+
+
+def tsa_any_bad(sc, sysm):
+  fs = [any_crash(sc, sysm), tsa_bad_value(sc, sysm), tsa_lock_left(sc, sysm)]
+  return lambda B, st: B.or_(*[f(B, st) for f in fs])
